@@ -94,8 +94,12 @@ def cases(rng, tier, shard, nshards):
         elif r < 0.62:
             # a new tag: assignments which are refused, then a valid value of another class
             yield {"k": "assign-seq", "line": rng.choice([f[0] for f in FIELDS if not f[0].startswith("#")]), "tag": V.tagname(rng),
-                   "refused": [rng.choice(sorted(BAD_PY)) for _ in range(rng.randint(1, 2))],
-                   "then": rng.choice(sorted(GOOD_PY)), "vlevel": rng.randrange(4), "how": rng.choice(["set", "attr"])}
+                   "refused": [rng.choice(sorted(BAD_PY)) for _ in range(rng.randint(0, 2))],
+                   "then": rng.choice(sorted(GOOD_PY)), "vlevel": rng.randrange(4), "how": rng.choice(["set", "attr"]),
+                   "sibling": rng.choice(sorted(GOOD_PY)) if rng.random() < 0.4 else None}
+            if rng.random() < 0.3:
+                # (no refused assignment first: only the clone's tag comes before the valid one)
+                pass
         else:
             i = rng.randrange(len(FIELDS))
             kind = FIELDS[i][3]
@@ -115,6 +119,12 @@ def run_assign_seq(case, ctx):
             setattr(line, tag, v)
         else:
             line.set(tag, v)
+    if case.get("sibling"):
+        # a clone of the line got a value of another class under the same tag name before
+        sc = call(ctx, "clone", line.clone)
+        if sc.ok:
+            call(ctx, "set(tag) on a clone", sc.value.set, tag, GOOD_PY[case["sibling"]][0])
+            ctx.count("sibling_assignments")
     for name in case["refused"]:
         r = call(ctx, "assign (unrepresentable)", assign, BAD_PY[name])
         ctx.count("assignments")
